@@ -1,4 +1,5 @@
 import SC.Properties.C17
+import SC.Properties.C06
 import SC.Properties.Src.C10
 import SC.Proofs.SrcFuns
 import SC.Proofs.SrcFunsB
@@ -84,20 +85,30 @@ theorem source_HasSuffix (s t : Bytes) (h h' : Heap)
   Str.HasSuffix _ _ h h' _ _ hCore
 
 /-- `TrimSuffix`: the returned string is the sub-slice of the first argument the model names (never a copy, never out of range:
-    a cut index beyond `len(s)` would be a panic of the source program, excluded by `hk`) -/
-theorem source_TrimSuffix (s t : Bytes) (h h' : Heap) (hk : (A.hasSuffixUnicode scfg s t).2 ≤ s.length)
+    a cut index beyond `len(s)` would be a panic of the source program; `C06.slices_in_range` excludes it) -/
+theorem source_TrimSuffix (s t : Bytes) (h h' : Heap)
     (hCore : Ret Gen.Src.str false str_hasSuffixUnicode [arg s 0, arg t 1] h
       [.bool (A.hasSuffixUnicode scfg s t).1, .int (A.hasSuffixUnicode scfg s t).2] h') :
     Ret Gen.Src.str false str_TrimSuffix [arg s 0, arg t 1] h [sub s (A.TrimSuffix scfg s t)] h' := by
+  have hk : (A.hasSuffixUnicode scfg s t).1 = true → (A.hasSuffixUnicode scfg s t).2 ≤ s.length := by
+    intro hb
+    have := (C06.slices_in_range scfg s t).2.2.1
+    unfold C06.InRange A.TrimSuffix at this
+    simpa [hb] using this
   have := Str.TrimSuffix s 0 0 (arg t 1) h h' _ _ hk hCore
   unfold A.TrimSuffix sub
   cases hb : (A.hasSuffixUnicode scfg s t).1 <;> simp [hb] at this ⊢ <;> exact this
 
-theorem source_CutSuffix (s t : Bytes) (h h' : Heap) (hk : (A.hasSuffixUnicode scfg s t).2 ≤ s.length)
+theorem source_CutSuffix (s t : Bytes) (h h' : Heap)
     (hCore : t ≠ [] → Ret Gen.Src.str false str_hasSuffixUnicode [arg s 0, arg t 1] h
       [.bool (A.hasSuffixUnicode scfg s t).1, .int (A.hasSuffixUnicode scfg s t).2] h') :
     Ret Gen.Src.str false str_CutSuffix [arg s 0, arg t 1] h
       [sub s (A.CutSuffix scfg s t).1, .bool (A.CutSuffix scfg s t).2] (if t = [] then h else h') := by
+  have hk : (A.hasSuffixUnicode scfg s t).1 = true → (A.hasSuffixUnicode scfg s t).2 ≤ s.length := by
+    intro hb
+    have := (C06.slices_in_range scfg s t).2.2.1
+    unfold C06.InRange A.TrimSuffix at this
+    simpa [hb] using this
   have := Str.CutSuffix s t 0 0 1 0 h h' _ _ hk hCore
   unfold A.CutSuffix sub
   by_cases ht : t = []
@@ -212,20 +223,30 @@ theorem source_byt_HasSuffix (s t : Bytes) (h h' : Heap)
   Byt.HasSuffix _ _ h h' _ _ hCore
 
 /-- `TrimSuffix`: the returned string is the sub-slice of the first argument the model names (never a copy, never out of range:
-    a cut index beyond `len(s)` would be a panic of the source program, excluded by `hk`) -/
-theorem source_byt_TrimSuffix (s t : Bytes) (h h' : Heap) (hk : (A.hasSuffixUnicode bcfg s t).2 ≤ s.length)
+    a cut index beyond `len(s)` would be a panic of the source program; `C06.slices_in_range` excludes it) -/
+theorem source_byt_TrimSuffix (s t : Bytes) (h h' : Heap)
     (hCore : Ret Gen.Src.byt true byt_hasSuffixUnicode [arg s 0, arg t 1] h
       [.bool (A.hasSuffixUnicode bcfg s t).1, .int (A.hasSuffixUnicode bcfg s t).2] h') :
     Ret Gen.Src.byt true byt_TrimSuffix [arg s 0, arg t 1] h [sub s (A.TrimSuffix bcfg s t)] h' := by
+  have hk : (A.hasSuffixUnicode bcfg s t).1 = true → (A.hasSuffixUnicode bcfg s t).2 ≤ s.length := by
+    intro hb
+    have := (C06.slices_in_range bcfg s t).2.2.1
+    unfold C06.InRange A.TrimSuffix at this
+    simpa [hb] using this
   have := Byt.TrimSuffix s 0 0 (arg t 1) h h' _ _ hk hCore
   unfold A.TrimSuffix sub
   cases hb : (A.hasSuffixUnicode bcfg s t).1 <;> simp [hb] at this ⊢ <;> exact this
 
-theorem source_byt_CutSuffix (s t : Bytes) (h h' : Heap) (hk : (A.hasSuffixUnicode bcfg s t).2 ≤ s.length)
+theorem source_byt_CutSuffix (s t : Bytes) (h h' : Heap)
     (hCore : t ≠ [] → Ret Gen.Src.byt true byt_hasSuffixUnicode [arg s 0, arg t 1] h
       [.bool (A.hasSuffixUnicode bcfg s t).1, .int (A.hasSuffixUnicode bcfg s t).2] h') :
     Ret Gen.Src.byt true byt_CutSuffix [arg s 0, arg t 1] h
       [sub s (A.CutSuffix bcfg s t).1, .bool (A.CutSuffix bcfg s t).2] (if t = [] then h else h') := by
+  have hk : (A.hasSuffixUnicode bcfg s t).1 = true → (A.hasSuffixUnicode bcfg s t).2 ≤ s.length := by
+    intro hb
+    have := (C06.slices_in_range bcfg s t).2.2.1
+    unfold C06.InRange A.TrimSuffix at this
+    simpa [hb] using this
   have := Byt.CutSuffix s t 0 0 1 0 h h' _ _ hk hCore
   unfold A.CutSuffix sub
   by_cases ht : t = []
